@@ -152,6 +152,12 @@ def segBytes (blk : Bytes → Bytes) (segs : List Seg) : Bytes :=
 /-- the logical concatenation of a stream's blocks -/
 def streamBytes (blk : Bytes → Bytes) (bs : List Loc) : Bytes := bs.flatMap fun b => blk b.text
 
+/-- **content of a path** as the document words it: for every file token with that combined path, in
+manifest order, the bytes `pos … pos+size` of the logical concatenation of its stream's blocks -/
+def fileContent (blk : Bytes → Bytes) (m : Manifest) (p : Bytes) : Bytes :=
+  m.flatMap fun s => s.files.flatMap fun f =>
+    if pathOf s.name f.name = p then ((streamBytes blk s.blocks).drop f.pos).take f.len else []
+
 /-! ## text level: the grammar -/
 
 /-- `\ooo` → byte; `none` when the token holds a backslash that does not start such an escape -/
